@@ -172,12 +172,28 @@ func splitFirst(s string) (string, string) {
 
 func splitCommaList(s string) []string {
 	var out []string
-	for _, x := range strings.Split(s, ",") {
-		x = strings.TrimSpace(x)
+	depth, inStr, last := 0, false, 0
+	flush := func(end int) {
+		x := strings.TrimSpace(s[last:end])
 		if x != "" {
 			out = append(out, x)
 		}
 	}
+	for i := 0; i < len(s); i++ {
+		switch {
+		case s[i] == '"':
+			inStr = !inStr
+		case inStr:
+		case s[i] == '(' || s[i] == '[' || s[i] == '<':
+			depth++
+		case s[i] == ')' || s[i] == ']' || s[i] == '>':
+			depth--
+		case s[i] == ',' && depth == 0:
+			flush(i)
+			last = i + 1
+		}
+	}
+	flush(len(s))
 	return out
 }
 
@@ -379,6 +395,23 @@ func (cs *Contracts) loadFile(file, pkgPath string) error {
 				}
 			case "noexit":
 				ls.NoExit = true
+			case "frame":
+				// `loop k frame g(loc), ...`: the loop changes ghost field g at loc only (checked as an invariant)
+				for _, item := range splitCommaList(r3) {
+					i := strings.Index(item, "(")
+					if i < 0 || !strings.HasSuffix(item, ")") {
+						return fmt.Errorf("%s:%d: loop frame item %q", rl.file, rl.line, item)
+					}
+					g, loc := strings.TrimSpace(item[:i]), item[i+1:len(item)-1]
+					gn := "$fr_" + id + "_" + g
+					ge, _ := parseSpecExpr(g)
+					ls.Ghosts = append(ls.Ghosts, GhostLet{gn, ge})
+					c, err := mkClause("invariant", fmt.Sprintf("%s == store(%s, %s, %s[%s])", g, gn, loc, g, loc), rl)
+					if err != nil {
+						return err
+					}
+					ls.Invariants = append(ls.Invariants, c)
+				}
 			case "ghost":
 				i := strings.Index(r3, ":=")
 				if i < 0 {
